@@ -27,6 +27,15 @@ Theorem C12_index_set_roundtrip : forall s, load_index_set (save_index_set s) = 
 Proof. exact CodecProofs.index_set_roundtrip. Qed.
 Print Assumptions C12_index_set_roundtrip.
 
+(* distinct index-set elements and distinct index sets never save to the same text *)
+Theorem C12_pair_injective : forall ab cd : list nat * list nat, show_pair ab = show_pair cd -> ab = cd.
+Proof. exact CodecProofs.show_pair_inj. Qed.
+Print Assumptions C12_pair_injective.
+
+Theorem C12_index_set_injective : forall s s', save_index_set s = save_index_set s' -> s = s'.
+Proof. exact CodecProofs.save_index_set_inj. Qed.
+Print Assumptions C12_index_set_injective.
+
 (* a tree keyed by (alpha, beta) saved as  str(alpha) -> str(beta) -> value  and loaded again holds exactly the same
    entries (grouped by alpha) *)
 Theorem C12_tree_roundtrip : forall (V : Type) (t : list ((list nat * list nat) * V)),
